@@ -491,12 +491,8 @@ pub fn edits(t: &Term) -> Vec<(String, Term)> {
         s.map = m;
         out.push((k, Term::Sms(Box::new(s))));
       }
-      if let Some(inner) = &spec.inner {
-        for (k, m) in edit_mapspec(inner, "sms.inner_map") {
-          let mut s = (**spec).clone();
-          s.inner = Some(m);
-          out.push((k, Term::Sms(Box::new(s))));
-        }
+      // options that only matter together with an inner map are still part of the value
+      {
         let mut s = (**spec).clone();
         s.remove = !s.remove;
         out.push(("sms.remove_original_source".into(), Term::Sms(Box::new(s))));
@@ -506,6 +502,13 @@ pub fn edits(t: &Term) -> Vec<(String, Term)> {
           None => "zz".into(),
         });
         out.push(("sms.original_source".into(), Term::Sms(Box::new(s))));
+      }
+      if let Some(inner) = &spec.inner {
+        for (k, m) in edit_mapspec(inner, "sms.inner_map") {
+          let mut s = (**spec).clone();
+          s.inner = Some(m);
+          out.push((k, Term::Sms(Box::new(s))));
+        }
         let mut s = (**spec).clone();
         s.inner = None;
         out.push(("sms.drop_inner_map".into(), Term::Sms(Box::new(s))));
